@@ -94,7 +94,10 @@ def decode_string(d):
             u = d.choice(LENGTH_UNITS)
             args = [num_text(d, small(d)) + unit_case(d, u)]
             if d.bool():
-                args.append(num_text(d, small(d)) + unit_case(d, u if d.bool() else d.choice(LENGTH_UNITS)))
+                fam = [x for x in (("in", "mm", "cm") if u in ("in", "mm", "cm") else ("", "px", "pt", "pc")) if x in LENGTH_UNITS and x != u]
+                k = d.below(4)
+                u2 = u if k <= 1 else (d.choice(fam) if (k == 2 and fam) else d.choice(LENGTH_UNITS))  # same unit / same family / any
+                args.append(num_text(d, small(d)) + unit_case(d, u2))
         elif low in ("translatex", "translatey"):
             args = [num_text(d, small(d)) + unit_case(d, d.choice(LENGTH_UNITS))]
         elif low == "scale":
@@ -171,7 +174,7 @@ def decode_algebra(d):
 
 
 def parts(tier):
-    n = 5000 if tier == "quick" else 40000
+    n = 15000 if tier == "quick" else 40000
     return [
         core.Part("strings", "sampled", lambda: gen.cases(decode_string, 384), budget=n),
         core.Part("algebra", "sampled", lambda: gen.cases(decode_algebra, 256), budget=n, check=check_algebra),
